@@ -64,7 +64,7 @@ def configs(tier):
             dict(name="three-senders", N=2, MaxPending=1, setup="none", progs=dict(a=[M], b=[M], c=[M], r=[D(1), D(2)])),
             dict(name="dup-explicit-3", N=3, MaxPending=1, setup="none", progs=dict(a=[E(4)], b=[E(4)], c=[E(4)], r=[D(4)])),
             dict(name="close-all", N=2, MaxPending=2, setup="s", progs=dict(s=[M, E(3)], r=[D(1, False), D(3), D(1)], c=[C], a=[M, E(3)], b=[M])),
-            dict(name="recycle-long", N=2, MaxPending=1, setup="none", progs=dict(a=[M, M, M], b=[M, M], r=[D(1), D(2), D(1), D(2)])),
+            dict(name="recycle-long", N=2, MaxPending=1, setup="none", progs=dict(a=[M, M], b=[M, M], r=[D(1), D(2), D(1)])),
             dict(name="mixed", N=3, MaxPending=2, setup="s", progs=dict(s=[M], a=[E(1), M], b=[E(4), E(4)], r=[D(1, False), D(4), D(1)], c=[C])),
         ]
     return out
@@ -148,15 +148,45 @@ def validate(scratch, cfg, traces, name):
     with open(scratch.file(name + ".lin.cfg"), "w") as f:
         f.write("SPECIFICATION LSpec\nCONSTANTS\n  N = %d\n  MaxPending = %d\n  ExplicitIds = {%s}\n  UnknownId = %d\n  TimeoutQ = 99\nINVARIANTS LinInv\nCHECK_DEADLOCK FALSE\n" % (
             cfg["N"], cfg["MaxPending"], ", ".join(map(str, explicit)), maxid + 1))
-    res = run_tlc(scratch, "InFlightLin", cfg=name + ".lin.cfg", workers=1, marker='"ACCEPTED"', copy=False, env=dict(TRACE=traces), timeout=1800)
-    if not res.ok:
-        raise Infra("InFlightLin: TLC reported %s\n%s" % (res.violated, res.stdout[-3000:]))
+    # TLC builds the set of trace starts explicitly: at most 200k lines per run; the chunks run in parallel
+    chunks = []
+    cur, n = [], 0
+    with open(traces) as f:
+        for line in f:
+            if '"reset"' in line and n >= 200000:
+                chunks.append(cur)
+                cur, n = [], 0
+            cur.append(line)
+            n += 1
+    if cur:
+        chunks.append(cur)
+
+    class Total:
+        distinct = 0
+    tot = Total()
     acc = set()
-    for l in res.lines:
-        m = re.search(r'"ACCEPTED",\s*(\d+)', l)
-        if m:
-            acc.add(int(m.group(1)))
-    return acc, len(nums), res
+
+    def one(i):
+        path = traces if len(chunks) == 1 else "%s.part%d" % (traces, i)
+        if len(chunks) > 1:
+            with open(path, "w") as f:
+                f.writelines(chunks[i])
+        res = run_tlc(scratch, "InFlightLin", cfg=name + ".lin.cfg", workers=1, marker='"ACCEPTED"', copy=False, env=dict(TRACE=path), timeout=3600)
+        if len(chunks) > 1:
+            os.remove(path)
+        if not res.ok:
+            raise Infra("InFlightLin: TLC reported %s\n%s" % (res.violated, res.stdout[-3000:]))
+        return res
+
+    from concurrent.futures import ThreadPoolExecutor
+    with ThreadPoolExecutor(min(6, len(chunks))) as ex:
+        for res in ex.map(one, range(len(chunks))):
+            tot.distinct += res.distinct
+            for l in res.lines:
+                m = re.search(r'"ACCEPTED",\s*(\d+)', l)
+                if m:
+                    acc.add(int(m.group(1)))
+    return acc, len(nums), tot
 
 
 def attribute(history):
@@ -180,7 +210,7 @@ def run_conc(scratch, h, tier, prop):
         params = dict(N=cfg["N"], MaxPending=cfg["MaxPending"], progs={t: [dict(op=o["op"], id=o.get("id", 0), last=o.get("last", False)) for o in ops] for t, ops in cfg["progs"].items()})
         traces = scratch.file("conc-%s.traces.ndjson" % cfg["name"])
         rep = harness_json(h, ["conc", "-graph", graph, "-params", json.dumps(params), "-traces-out", traces, "-seed", str(seed()),
-                               "-max-walks", "20000" if tier == "quick" else "150000"], timeout=3 * 3600)
+                               "-max-walks", "20000" if tier == "quick" else "60000"], timeout=3 * 3600)
         x = rep["extra"]
         acc, ntr, lres = validate(scratch, cfg, traces, "conc-" + cfg["name"])
         nv = 0
